@@ -150,6 +150,20 @@ def handPrograms : List (String × Program) :=
                       [mkOp ([" {@link p} {@link S} {@link I}"]) ([]) false "op" ([prm "p" (tr (pr .bool))]) (.none)],
                     .enum [] [] false false "E" none [enr "X" none (some [fld "g" (tr (pr .bool)) none [" {@link X} {@link g} {@link E::X::g}"]])]]]) ]
 
+/-- string lengths and element counts at the boundaries of the variable-length size encoding (1 byte up to 63, 2 bytes up to 16 383,
+    4 bytes beyond): identifiers, doc-comment lines, attribute arguments; numbers of fields, enumerators, definitions -/
+def sizePrograms (tier : Tier) : List (String × Program) :=
+  let strLens := [61, 62, 63, 64, 65, 16381, 16382, 16383, 16384, 16385, 16386]
+  let counts := if tier == .thorough then [63, 64, 65, 16383, 16384, 16385] else [63, 64, 65, 16384]
+  strLens.flatMap (fun n =>
+    [("ident-" ++ toString n, [file "M" [.struct [] [] false (long n 'a') [fld "f" (tr (pr .bool))]]]),
+     ("doc-" ++ toString n, [file "M" [.struct [" " ++ long n 'd'] [] false "S" [fld "f" (tr (pr .bool)) none [long n 'e', " @see S"]]]]),
+     ("attr-" ++ toString n, [file "M" [.custom [] [⟨"cs::a", [long n 'x', ""]⟩] "C"]])]) ++
+  counts.flatMap (fun n =>
+    [("fields-" ++ toString n, [file "M" [.struct [] [] false "S" ((List.range n).map fun i => fld ("f" ++ toString i) (tr (pr .bool)))]]),
+     ("enumerators-" ++ toString n, [file "M" [.enum [] [] false false "E" (some (tr (pr .uint16))) ((List.range n).map fun i => enr ("X" ++ toString i))]]),
+     ("definitions-" ++ toString n, [file "M" ((List.range n).map fun i => Def.custom [] [] ("C" ++ toString i))])])
+
 def nomodulePrograms : List (String × Program) :=
   let m : SFile := file "M" [.struct [] [] false "S" [fld "a" (tr (pr .bool))]]
   let e : SFile := { fileAttrs := [], module := none, defs := [] }
@@ -298,6 +312,9 @@ def c08Cases (tier : Tier) (seed : Nat) : List C08Case := Id.run do
     for refs in splitsOf p.length do
       out := ⟨"nomodule", DocMode.current, p, refs, genArgLists.getD (k % argN) [], 0, seed⟩ :: out
       k := k + 1
+  for (_, p) in sizePrograms tier do
+    out := ⟨"sizes", DocMode.current, p, [], genArgLists.getD (k % argN) [], k % 3, seed⟩ :: out
+    k := k + 1
   -- the whole argument catalogue on one program
   for a in genArgLists do
     out := ⟨"args", DocMode.current, (handPrograms.getD 1 default).2, [], a, 0, seed⟩ :: out
